@@ -4,9 +4,10 @@
   invariant `QueueInv` (C07: "at most its configured outbound queue buffered; the rest is lost"),
   preserved by every function of `Nexus.L2.Realm`.
 
-  Vocabulary (definitions, first section): `queueOf`, `accept`, `msgsTo`, `JoinFresh`, `QueueInv`.
-  Explicit assumption for `join`: the joining key names no attached client and no leftover queue
-  (`JoinFresh`; session keys are model-internal names which the harness never reuses).
+  Vocabulary (definitions, first section): `queueOf`, `accept`, `msgsTo`, `JoinFresh`, `JoinClean`, `QueueInv`.
+  Explicit assumption for `join`: a joining key that names no attached client names no leftover queue either
+  (`JoinClean`; the former `JoinFresh` also asked that it names no attached client, but such a `join` is a
+  no-op of the model now; session keys are model-internal names which the harness never reuses).
 -/
 import Nexus.L2.Proofs.RealmFrame
 
@@ -37,6 +38,15 @@ def client? (r : Realm) (k : SessKey) : Option Session := r.clients.find? (fun c
 /-- a key that may join: it names no attached client and no queue -/
 def JoinFresh (r : Realm) (k : SessKey) : Prop :=
   (∀ c ∈ r.clients, c.key ≠ k) ∧ (∀ q ∈ r.queues, q.1 ≠ k)
+
+/-- what is left of `JoinFresh` now that `join` under the key of an attached client is a no-op of the
+    model: a joining key that names no attached client names no leftover queue either (the queue of
+    a departed session whose closure its client has not observed yet: the model names queues by
+    session key, the router would give the new session a queue of its own) -/
+def JoinClean (r : Realm) (k : SessKey) : Prop :=
+  (∀ c ∈ r.clients, c.key ≠ k) → ∀ q ∈ r.queues, q.1 ≠ k
+
+theorem JoinFresh.clean {r : Realm} {k : SessKey} (h : JoinFresh r k) : JoinClean r k := fun _ => h.2
 
 /-- The queue invariant:
     * every queue belongs to an attached client, or to a peer closed in this step / a departed
@@ -658,13 +668,18 @@ theorem qinv_drain : ∀ (fuel : Nat) {r : Realm}, QueueInv r → QueueInv (drai
       rw [drain_succ_cons _ _ t ts ht]
       exact qinv_drain fuel (qinv_runTask (r := { r with tasks := ts }) h t)
 
-/-- an external input; a joining key must be fresh -/
-theorem qinv_stepOp {r : Realm} (h : QueueInv r) (op : Op)
-    (hj : ∀ k l d ro c, op = .join k l d ro c → JoinFresh r k) : QueueInv (r.stepOp op) := by
+/-- an external input; a joining key that names no attached client must name no leftover queue
+    either (`join` under the key of an attached client, or under the meta session's, is a no-op) -/
+theorem qinv_stepOp' {r : Realm} (h : QueueInv r) (op : Op)
+    (hj : ∀ k l d ro c, op = .join k l d ro c → JoinClean r k) : QueueInv (r.stepOp op) := by
   cases op with
   | join k isLocal details roles cap =>
-    obtain ⟨hfc, hfq⟩ := hj k isLocal details roles cap rfl
     rw [stepOp_join]
+    split
+    · exact h
+    rename_i hg
+    have hfc := (join_guard_false hg).2
+    have hfq := hj k isLocal details roles cap rfl hfc
     apply qinv_addTasks
     obtain ⟨h1, h2, h3, h4⟩ := h
     refine ⟨?_, ?_, ?_, h4⟩
@@ -706,6 +721,8 @@ theorem qinv_stepOp {r : Realm} (h : QueueInv r) (op : Op)
       (fun c => by split <;> rfl) (fun c => by split <;> rfl) rfl rfl rfl (fun _ hk => hk) h
   | drop k =>
     rw [stepOp_drop]
+    split
+    · exact h
     split <;> exact h
   | stall k =>
     rw [stepOp_stall]
@@ -718,6 +735,11 @@ theorem qinv_stepOp {r : Realm} (h : QueueInv r) (op : Op)
       (fun _ hk => (List.mem_filter.mp hk).1) h
   | tick ms => exact h
   | rnd n => exact h
+
+/-- an external input; a joining key must be fresh -/
+theorem qinv_stepOp {r : Realm} (h : QueueInv r) (op : Op)
+    (hj : ∀ k l d ro c, op = .join k l d ro c → JoinFresh r k) : QueueInv (r.stepOp op) :=
+  qinv_stepOp' h op (fun k l d ro c e => (hj k l d ro c e).clean)
 
 /-! ### timed events -/
 
@@ -842,6 +864,23 @@ theorem qinv_step {r : Realm} (h : QueueInv r) (op : Op)
   · rw [step_of_not_tick r op (fun ms e => ht ⟨ms, e⟩)]
     exact qinv_flush (qinv_drain _ (qinv_stepOp h op hj))
 
+theorem qinv_step' {r : Realm} (h : QueueInv r) (op : Op)
+    (hj : ∀ k l d ro c, op = .join k l d ro c → JoinClean r k) : QueueInv (r.step op).2 := by
+  by_cases ht : ∃ ms, op = .tick ms
+  · obtain ⟨ms, rfl⟩ := ht
+    rw [step_tick]
+    exact qinv_flush (qinv_advance _ _ h)
+  · rw [step_of_not_tick r op (fun ms e => ht ⟨ms, e⟩)]
+    exact qinv_flush (qinv_drain _ (qinv_stepOp' h op hj))
+
+/-- with the queue invariant, a key that is not the key of a closed peer (a departed session whose
+    closure has not been observed) is clean -/
+theorem QueueInv.joinClean {r : Realm} (h : QueueInv r) {k : SessKey} (hk : k ∉ r.closedPeers) : JoinClean r k := by
+  intro hc q hq e
+  rcases h.1 q hq with ⟨c, hcm, ec⟩ | hcl
+  · exact hc c hcm (ec.trans e)
+  · exact hk (e ▸ hcl)
+
 theorem bregisterMeta_fields : ∀ (ps : List String) (r : Realm),
     (registerMeta r ps).clients = r.clients ∧ (registerMeta r ps).queues = r.queues ∧
     (registerMeta r ps).closedPeers = r.closedPeers ∧ (registerMeta r ps).ghosts = r.ghosts
@@ -882,6 +921,29 @@ theorem QReachable.qinv {cfg : Config} {r : Realm} (h : QReachable cfg r) : Queu
   induction h with
   | init h => exact qinv_create h
   | step op _ hj ih => exact qinv_step ih op hj
+
+/-- realm states reachable by inputs in which no session joins under the key of a leftover queue
+    (`JoinClean`): weaker than `QReachable` — nothing is asked of a `join` under the key of an attached
+    client, which is a no-op of the model -/
+inductive CReachable (cfg : Config) : Realm → Prop
+  | init {r : Realm} : Realm.create cfg = some r → CReachable cfg r
+  | step {r : Realm} (op : Op) : CReachable cfg r →
+      (∀ k l d ro c, op = .join k l d ro c → JoinClean r k) → CReachable cfg (r.step op).2
+
+theorem CReachable.qinv {cfg : Config} {r : Realm} (h : CReachable cfg r) : QueueInv r := by
+  induction h with
+  | init h => exact qinv_create h
+  | step op _ hj ih => exact qinv_step' ih op hj
+
+theorem QReachable.creachable {cfg : Config} {r : Realm} (h : QReachable cfg r) : CReachable cfg r := by
+  induction h with
+  | init h => exact .init h
+  | step op _ hj ih => exact .step op ih (fun k l d ro c e => (hj k l d ro c e).clean)
+
+/-- it is enough that no session joins under the key of a closed peer whose closure is still unobserved -/
+theorem CReachable.step_not_closed {cfg : Config} {r : Realm} (h : CReachable cfg r) (op : Op)
+    (hj : ∀ k l d ro c, op = .join k l d ro c → k ∉ r.closedPeers) : CReachable cfg (r.step op).2 :=
+  .step op h (fun k l d ro c e => h.qinv.joinClean (hj k l d ro c e))
 
 end Realm
 end Nexus.L2
